@@ -54,6 +54,14 @@ CHECKS = {
          "Rocq proof (induction over histories) + executable correspondence of the model with teaal.ir.fusion + verified checker on the code's output", "DESIGN.md section 6 C13"),
 }
 
+# properties built in their own branch register themselves through tools/props/<id>.meta.json
+import glob
+for mf in sorted(glob.glob(os.path.join(VERIF, "tools", "props", "*.meta.json"))):
+    md = json.load(open(mf))
+    CHECKS[md["property_id"]] = (md["category"], md["text"], md["note"], md["technique"], md.get("design_ref", "DESIGN.md section 0A"))
+
+NA_REASONS = {}   # property id -> reason, for properties deliberately not claimed
+
 checks = []
 for pid in sorted(CHECKS):
     cat, text, note, tech, ref = CHECKS[pid]
@@ -79,7 +87,7 @@ m = {
               "kind_free_text": "Coq 8.16.1 development (Model/, Proofs/, Props/) + per-run generated case files evaluated with vm_compute"}],
  "checks": checks,
  "notes": "See DESIGN.md. fix: commits in /repo: 0f7a07c (F1), 4072179 (F10). known_findings.json lists open findings.",
- "not_applicable": [{"property_id": p["id"], "reason": "check not built yet in this round (work in progress; see DESIGN.md section 8 for the order)"}
+ "not_applicable": [{"property_id": p["id"], "reason": NA_REASONS.get(p["id"], "check not built yet in this round (work in progress; see DESIGN.md section 8 for the order)")}
                     for p in props if p["id"] not in claimed],
 }
 json.dump(m, open(os.path.join(VERIF, "MANIFEST.json"), "w"), indent=1)
